@@ -3,6 +3,9 @@ CONSTANTS NB = 2
  MaxCrash = 2
  RepairTornTail = TRUE
  RepairAtomicContext = TRUE
+ MaxEdge = 0
+ ScanStride = "align"
+ CaskAdvance = "align"
  RepairScanPromotes = FALSE
 INVARIANTS ContextFresh
 CHECK_DEADLOCK FALSE
